@@ -1,15 +1,26 @@
 import Cactus.Lemmas.Final
 import Cactus.Lemmas.Basic
+import Cactus.Lemmas.Contract
+import Cactus.Lemmas.GroupOrder
 import Cactus.Props.C05
 import Cactus.Props.C12
 /-!
-# C10 — destructors may use the API re-entrantly during a collection (first layer)
+# C10 — destructors may use the API re-entrantly during a collection
 
 The machine is small-step with an explicit control stack, so a destructor's API calls are
 ordinary applications of `applyAct` in a state whose stack is non-empty; every invariant is a
 predicate of one state *including its stack* (`Cactus.Spec.Inv`), so "C01–C06 continue to hold"
-is the same preservation theorem at every nesting depth.  First layer: the uniformity itself, and
-the two local facts the property names.
+is the same preservation theorem at every nesting depth.  What is proved here:
+* one-step lemmas: `C10_script_uses_applyAct`, `C10_script_done`, `C10_upgrade_dying_peer`,
+  `C10_no_nested_self_borrow`;
+* every reachable state, in particular every point of every teardown:
+  `C10_invariants_hold_mid_teardown` (no hypothesis on the history) and
+  `C10_safety_holds_mid_teardown` (under `ReachableP`);
+* example: a destructor that upgrades Weak handles, clones a Weak and destroys an outsider from
+  inside a group teardown; both theorems instantiated at a state seven frames deep.
+Not modelled: what a destructor does besides calling the API (a script is a list of API actions), and
+`RefCell` borrow flags as such — the model has no borrow state; `C10_no_nested_self_borrow` is the one
+place where the library iterates a table while touching others.
 -/
 namespace Cactus
 open State
@@ -74,5 +85,110 @@ theorem C10_safety_holds_mid_teardown {s : State} (h : ReachableP s) (he : s.err
         have h0 := hfz.mp hf
         simp [State.weakNat, hg, State.implicitNat, himp, h0] at hw
     simp [State.cell, hg, this]
+
+/-! ## Non-vacuity: a destructor that re-enters the library in the middle of a collection
+
+A two-cycle `0 ↔ 1` built with `link`; outsiders 2 and 3, where 2's value holds a strong handle to 3
+and the program holds handles to both.  The value of member 0 holds a Weak to its peer 1 and a Weak
+to outsider 2; its destructor script upgrades both (the peer is already dying: `None`; the outsider
+is live: `Some`, a new program handle), clones a Weak of the program (to the dying object 0 itself),
+drops both program handles to outsider 2 — which destroys 2 *inside* the group teardown, a nested
+last-handle teardown that in turn drops 2's handle to 3 — and finally queries the counts of 3.
+`reentrantStart` is the state in which the collecting `drop` has pushed its `rcDrop 0` frame. -/
+
+def reentrantBuild : List (Op × List Nat) :=
+  [(.act .new, []), (.act .new, []),                        -- group members 0, 1
+   (.act (.clone 1), []), (.act (.link 2 0), []),           -- 0 → 1
+   (.act (.clone 0), []), (.act (.link 2 1), []),           -- 1 → 0
+   (.act .new, []), (.act .new, []),                        -- outsiders 2, 3; handles [0, 1, 2, 3]
+   (.act (.clone 3), []), (.act (.store 4 2), []),          -- 2's value holds a handle to 3
+   (.act (.downgrade 1), []), (.act (.storeWeak 0 0), []),  -- 0's value: Weak to its peer 1
+   (.act (.downgrade 2), []), (.act (.storeWeak 0 0), []),  -- … and a Weak to outsider 2
+   (.act (.downgrade 0), []),                               -- program: Weak to 0
+   (.setScript 0 [.upgradeField 0, .upgradeField 1, .cloneWeak 0, .drop 0, .drop 1, .counts 0], []),
+   (.act (.drop 1), [])]                                    -- program's handle to 1; handles [0, 2, 3]
+
+def reentrantStart : State := applyOp ((run reentrantBuild).begin [0, 1]) (.act (.drop 0))
+
+theorem runSteps_reachable (n : Nat) (s : State) (h : Reachable s) : Reachable (runSteps n s) := by
+  induction n generalizing s with
+  | zero => exact h
+  | succ n ih => exact ih _ (.step h)
+
+theorem runSteps_reachableC (n : Nat) (s : State) (h : ReachableC s) : ReachableC (runSteps n s) := by
+  induction n generalizing s with
+  | zero => exact h
+  | succ n ih => exact ih _ (.step h)
+
+theorem reentrantBuild_respects : ∀ oh ∈ reentrantBuild, oh.1.respects := by decide
+
+theorem reentrantStart_reachableC : ReachableC reentrantStart :=
+  .op (.act (.drop 0)) [0, 1] (run_reachableC reentrantBuild reentrantBuild_respects)
+    (by decide +kernel) trivial
+
+/-- twelve machine steps into the operation: the group teardown (`phase3`, member 1's value still
+waiting) is suspended inside the destructor of member 0 (`script`, then its drop glue), which is
+suspended inside the teardown of outsider 2 (`finishSingle 2`), which is dropping 2's handle to 3:
+seven frames, three nested library calls -/
+example : (runSteps 12 reentrantStart).stack =
+      [.rcDrop 3, .dropFields [] [], .finishSingle 2, .script [1] [1, 2] [.counts 0],
+       .dropFields [1] [1, 2],
+       .dropVal { vid := 1, held := [0], weaks := [], script := [], panics := false },
+       .phase3 [1, 0]]
+    ∧ (runSteps 12 reentrantStart).err = none
+    ∧ (runSteps 12 reentrantStart).roots = [3] ∧ (runSteps 12 reentrantStart).wroots = [0, 0]
+    ∧ (runSteps 12 reentrantStart).log
+        = [.traced 1 2 3, .traced 0 2 3, .destroyed 0, .ret 0, .ret 1, .destroyed 2] := by
+  decide +kernel
+
+/-- `C10_invariants_hold_mid_teardown` applies to that intermediate state … -/
+theorem reentrant_mid_invariants :
+    (runSteps 12 reentrantStart).InvO ∧ (runSteps 12 reentrantStart).InvB
+    ∧ (runSteps 12 reentrantStart).InvC ∧ (runSteps 12 reentrantStart).InvW
+    ∧ (runSteps 12 reentrantStart).InvK :=
+  C10_invariants_hold_mid_teardown
+    (runSteps_reachable 12 _ reentrantStart_reachableC.reachable) (by decide +kernel)
+
+/-- … and gives, e.g., for the live outsider 3: its strong count is exactly the program's handle
+plus the handle owned by the pending `rcDrop 3` frame (`2 = 1 + 0 + 1`), and for the dying member 0:
+its weak count is the two Weak handles of the program (one just cloned by the destructor) plus the
+implicit weak reference that `phase3` still owes (`3 = 2 + 0 + 0 + 1`) -/
+example : (runSteps 12 reentrantStart).strongNat 3
+      = (runSteps 12 reentrantStart).ext 3 + (runSteps 12 reentrantStart).inHeap 3
+        + (runSteps 12 reentrantStart).pend 3 :=
+  reentrant_mid_invariants.2.2.1 3 (by decide +kernel)
+
+example : (runSteps 12 reentrantStart).weakNat 0
+      = (runSteps 12 reentrantStart).extW 0 + (runSteps 12 reentrantStart).inHeapW 0
+        + (runSteps 12 reentrantStart).pendW 0 + (runSteps 12 reentrantStart).implicitNat 0 :=
+  reentrant_mid_invariants.2.2.2.1 0 (by decide +kernel)
+
+example : (runSteps 12 reentrantStart).strongNat 3 = 2 ∧ (runSteps 12 reentrantStart).ext 3 = 1
+    ∧ (runSteps 12 reentrantStart).inHeap 3 = 0 ∧ (runSteps 12 reentrantStart).pend 3 = 1
+    ∧ (runSteps 12 reentrantStart).weakNat 0 = 3 ∧ (runSteps 12 reentrantStart).extW 0 = 2
+    ∧ (runSteps 12 reentrantStart).implicitNat 0 = 1 := by
+  decide +kernel
+
+/-- `C10_safety_holds_mid_teardown` applies too (the history is contract-respecting): the handle
+owned by the pending `rcDrop 3` frame designates an allocation that has not been released -/
+example : ((runSteps 12 reentrantStart).cell 3).isSome = true :=
+  (C10_safety_holds_mid_teardown
+    ((runSteps_reachableC 12 _ reentrantStart_reachableC).reachableP (by decide +kernel))
+    (by decide +kernel)).2 3 (by decide +kernel)
+
+/-- the whole operation ends without error after 30 steps; the log shows the re-entrant calls in
+order: peer upgrade `None`, outsider upgrade `Some`, outsider 2 destroyed inside the teardown,
+counts of 3 (1 strong, 0 Weak); 2's allocation is released only when member 0's Weak to it is
+dropped by the drop glue; member 0's allocation survives through the program's two Weak handles -/
+example : (runSteps 30 reentrantStart).stack = [] ∧ (runSteps 29 reentrantStart).stack ≠ [] := by
+  decide +kernel
+
+example : let s := run (reentrantBuild ++ [(.act (.drop 0), [0, 1])])
+    s.err = none ∧ s.stack = [] ∧ s.roots = [3] ∧ s.wroots = [0, 0]
+    ∧ s.log = [.traced 1 2 3, .traced 0 2 3, .destroyed 0, .ret 0, .ret 1, .destroyed 2, .ret 1, .ret 0,
+               .freed 2, .destroyed 1, .freed 1]
+    ∧ s.heap.map (fun ob => (ob.strong, ob.weak, ob.freed))
+        = [(.uninit, 2, false), (.uninit, 0, true), (.uninit, 0, true), (.cnt 1, 1, false)] := by
+  decide +kernel
 
 end Cactus
